@@ -9,8 +9,19 @@ def vals_field(facts):
     return a['variants'][0]['fields'][0]['name'] if a else 'vals'
 
 
-def _item_clock_side(t, vf):
-    """t is the clock (.0) of an item of <param i>.vals  ->  i"""
+def _item_clock_side(t, vf, it=None):
+    """t is the clock (.0) of an item of <param i>.vals  ->  i  (with `it`: also of an item of a local collection that holds
+    values of one side only when it is walked)"""
+    if it is not None:
+        from .loops import loop_of_item, coll_local, local_side, peel
+        x = peel(t)
+        if x[0] == 'field' and x[2] == '0':
+            lp = loop_of_item(it, x[1])
+            if lp is not None and param_path(lp.source()[0]) is None:
+                nm = coll_local(lp.raw_src)
+                sd = local_side(it, nm, lp.head, vf) if nm else None
+                if sd is not None:
+                    return sd
     t = versionless(t)
     if t[0] == 'field' and t[2] == '0':
         e = elem_of(t[1])
@@ -67,10 +78,11 @@ QUANT_SINKS = ('count', 'next', 'any', 'all', 'find', 'position', 'last', 'nth')
 def pair_truth(facts, cb, m, own_side, vf, acc=None, q=None):
     """Truth of the inner predicate for each ordering of (own clock, other clock)."""
     seen = []
+    it_ = interp(facts, q['loopq']['body']) if q is not None and q.get('loopq') and not m else None
 
     def classify(a, b, t):
         sa, sb = subst(a, m), subst(b, m)
-        ia, ib = _item_clock_side(sa, vf), _item_clock_side(sb, vf)
+        ia, ib = _item_clock_side(sa, vf, it_), _item_clock_side(sb, vf, it_)
         if ia is None or ib is None or ia == ib:
             return None
         seen.append((ia, ib))
@@ -109,6 +121,13 @@ def mrg_mvreg(ctx):
             if q is None:
                 return None
             xb = param_path(iter_source(q['src'])[0])
+            if not xb and q.get('loopq') and q['loopq']['body'].uid == body.uid:
+                # the walked collection is a local holding the (surviving) values of one side
+                from .loops import coll_local, local_side
+                nm = coll_local(q['raw_src'])
+                sd = local_side(it, nm, q['loopq']['loop'].head, vf) if nm else None
+                if sd is not None:
+                    xb = (sd, (vf,))
             if not xb or xb[1][-1:] != (vf,) or xb[0] == side or set(iter_adaptors(q['src'])) & LOSSY_ADAPTORS:
                 problems.append('the quantifier does not range over all values of the other side')
                 return None
@@ -186,6 +205,9 @@ def mrg_mvreg(ctx):
                 if a0.loc is None or a0.loc[0][0] != 'L' or not any(item_derived(a.val, lp) for a in c2.args[1:]):
                     continue
                 lname = 'L%d' % a0.loc[0][1]
+                from .loops import locals_into_field
+                if lname in locals_into_field(facts, body, it, (vf,)):
+                    flows = True
                 # that collection is appended to self.vals after the loop, on every path
                 for b3, c3 in it.calls.items():
                     if call_name(c3.term) in ('extend', 'append') and len(c3.args) == 2 and b3 not in lp.blocks:
